@@ -1141,12 +1141,15 @@ class Simulation:
 
         if output_filename.exists():
             # keep a single backup, previous backups are overwritten.
-            if backup_filename is not None:
+            if backup_filename is None:
+                output_filename.unlink()  # remove
+            elif backup_filename.exists() and self._output_left_incomplete():
+                # `output_filename` is the left-over of an interrupted save: keep the complete backup
+                output_filename.unlink()
+            else:
                 if backup_filename.exists():
                     backup_filename.unlink()  # remove if exists
                 output_filename.rename(backup_filename)
-            else:
-                output_filename.unlink()  # remove
 
         # actually save the results to disk
         self._save_to_file(results, output_filename)
@@ -1161,6 +1164,24 @@ class Simulation:
 
     def _save_to_file(self, results, output_filename):
         hdf5_io.save(results, output_filename)
+
+    def _output_left_incomplete(self):
+        """Whether :attr:`output_filename` is an incomplete file left behind by an interrupted save.
+
+        Only relevant for the first :meth:`save_results` of a simulation resumed from a checkpoint while
+        both the output and the backup file exist: a previous :meth:`save_results` (of the process we
+        resume) was then interrupted, and the output file might be incomplete while the backup file
+        holds the checkpoint we resumed from. In that case we must not replace the backup with it.
+        """
+        if not self.loaded_from_checkpoint or getattr(self, '_checked_output_complete', False):
+            return False
+        self._checked_output_complete = True  # files written by ourselves from now on
+        try:
+            hdf5_io.load(self.output_filename)
+        except Exception:
+            self.logger.warning('%s is incomplete; keep the backup file', self.output_filename)
+            return True
+        return False
 
     def prepare_results_for_save(self):
         """Bring the `results` into a state suitable for saving.
